@@ -25,7 +25,7 @@ RULE = ('(ii) for every mutating operation of a table of ~30 operations (all sto
 DISTINCT = ('failpoints', 'unencodable_cases', 'concurrent_schedules')
 REQUIRED = ('failpoints_injected', 'ops_with_all_gates_enumerated', 'unencodable_values', 'lock_timeouts',
             'history_calls', 'concurrent_programs', 'failures_after_file_written', 'expired_file_row_paths',
-            'failures_injected_into_concurrent_programs')
+            'failures_injected_into_concurrent_programs', 'handles_opened_during_concurrent_programs')
 ASSUMPTIONS = ('fault model: a statement other than COMMIT/ROLLBACK fails (SQLite rolls the statement back), a file '
                'operation other than unlink/rmdir fails; a failing unlink makes the property unsatisfiable for any '
                'implementation and is outside the model', 'single failure per operation')
@@ -442,7 +442,12 @@ def concurrent_program(dc, sc, res, rng, label):
     for k, v in init.items():
         setup.set(k, v)
     shared = rng.random() < 0.5
-    caches = [setup if shared else dc.Cache(d, timeout=0) for _ in range(nclients)]
+    # clients with their own handle open it inside the schedule half of the time, and some re-open it between two
+    # calls, while the others are writing: opening a handle must not disturb the counters
+    late = (not shared) and rng.random() < 0.6
+    caches = [setup if shared else None if late else dc.Cache(d, timeout=0) for _ in range(nclients)]
+    reopen_at = [rng.randrange(0, len(prog[ci]) + 1) if late and rng.random() < 0.5 else -1 for ci in range(nclients)]
+    opened = []
     sch = Sched(rng, clock, strategy=rng.choice(['random', 'preempt', 'ops']), preempt_points={rng.randrange(0, 100)})
     rec = Recorder(sch)
     # in half of the programs one or two statements / file operations of some client fail while the others go on
@@ -463,7 +468,13 @@ def concurrent_program(dc, sc, res, rng, label):
 
     def client(ci):
         def run():
-            for op, args, kw in prog[ci]:
+            if caches[ci] is None:
+                caches[ci] = dc.Cache(d, timeout=0)
+                opened.append(caches[ci])
+            for j, (op, args, kw) in enumerate(prog[ci]):
+                if j == reopen_at[ci]:
+                    caches[ci] = dc.Cache(d, timeout=0)
+                    opened.append(caches[ci])
                 if rng.random() < 0.25:
                     def blk():
                         try:
@@ -484,6 +495,7 @@ def concurrent_program(dc, sc, res, rng, label):
             res.count('schedules_hit_step_cap')
             return
         res.count('concurrent_programs')
+        res.count('handles_opened_during_concurrent_programs', len(opened))
         res.count('evaluations')
         res.seen('concurrent_schedules', sch.trace_hash())
         obs = observe.Observer(d)
@@ -496,7 +508,7 @@ def concurrent_program(dc, sc, res, rng, label):
                            'trace_hash': sch.trace_hash()})
     finally:
         probe.set_controller(None)
-        for c in set(caches) | {setup}:
+        for c in (set(caches) | {setup} | set(opened)) - {None}:
             try:
                 c.close()
             except Exception:      # noqa: BLE001
